@@ -1480,6 +1480,36 @@ fn cell_value_case(i: u64) -> Doc {
     d
 }
 
+/// font names are independent of glyph data: slot {0, 1, 256} x glyphs {stock cp437, redrawn cp437, another built-in, custom 8x8, custom 512 glyphs 7x19}
+/// x name {stock default name, another built-in font's name, empty, foreign text}
+const FONT_NAME_CASES: u64 = 3 * 5 * 4;
+fn font_name_case(i: u64) -> Doc {
+    let (slot, src, nm) = ([0u16, 1, 256][(i % 3) as usize], (i / 3) % 5, (i / 15) % 4);
+    let name = match nm {
+        0 => stock_name(),
+        1 => icy_engine::FONT_NAMES[5 % icy_engine::FONT_NAMES.len()].to_string(),
+        2 => String::new(),
+        _ => "Mein Font \u{1F600}".to_string(),
+    };
+    let kind = match src {
+        0 => FontKind::BuiltinAs { page: 0, name, edit: None },
+        1 => FontKind::BuiltinAs { page: 0, name, edit: Some(i as u32) },
+        2 => FontKind::BuiltinAs { page: 7, name, edit: None },
+        3 => FontKind::Custom { name, w: 8, h: 8, big: false, seed: i as u32 },
+        _ => FontKind::Custom { name, w: 7, h: 19, big: true, seed: i as u32 },
+    };
+    let mut l = plain_layer("t", 3, 1, vec![Row { cells: vec![S_CELL, Cell::V(0x100, 1, 2, 0, u16::MAX)], pad: 0 }]);
+    l.fp = u16::MAX;
+    let mut d = small_doc(vec![plain_layer("bg", 4, 2, vec![Row { cells: vec![S_CELL], pad: 0 }]), l], "");
+    d.fonts.clear();
+    if slot == 0 {
+        d.font0 = kind;
+    } else {
+        d.fonts.push(FontM { slot, kind });
+    }
+    d
+}
+
 /// rows of a completely filled w x h layer: `mixed` = long / short / invisible alternating, else every cell long-form (16 bytes each)
 fn filled_rows(w: usize, h: usize, mixed: bool) -> Vec<Row> {
     (0..h)
@@ -1567,6 +1597,7 @@ fn main() {
          boundary part: one forced extreme per case (dense 200x120 layer, six 200x120 layers, zero+max layers, 256/257/299/300 colours, ~300 font slots, 255 comments, buffer 200x120). \
          layer_flags (exhaustive): role x mode x 32 flag sets x colour tag. row_shapes (exhaustive): every row over {invisible,short,long}^w, w=0..=4, x 4 following rows x 2 storage forms. \
          chunk_straddle (fixed table, both tiers): completely filled layers 64x64 .. 200x120 (64 KiB .. 384 KB of long-form records, and a long/short/invisible mix) x flags {none, locked, hidden, alpha+alpha-locked} x big layer first/second, and image layers with 64 KiB .. 384 KB of pixels. \
+         font_names (exhaustive table): slot {0,1,256} x glyphs {stock, redrawn stock, other built-in, custom 8x8, custom 512 x 7x19} x name {stock default name, other built-in name, empty, foreign}. \
          fonts: names are independent of glyph data (stock name 'Codepage 437 English' on redrawn/other/custom glyphs in slot 0 in 15% of documents and in other slots; stock glyphs under foreign names). \
          cell_values (exhaustive): product of boundary values char {0x41,255,256,0xD7FF,0xE000,0x10FFFF} x fg,bg {7,255,256,TRANSPARENT,0xFFFFFFFF} x font page {0,255,256,300} x attr {0,0x3FF,0x200}. \
          Non-trivial: >= 2 layers AND >= 1 long-form cell on a Normal layer AND >= 1 row terminator (a row of a Normal layer whose visible length is below the layer width); distinct by hash of the model.",
@@ -1580,6 +1611,7 @@ fn main() {
     eng.enumerated(PartCfg::new("layer_flags", 0, 0).exhaustive(true), FLAG_CASES, flag_case, check);
     eng.enumerated(PartCfg::new("row_shapes", 0, 0).exhaustive(true), ROW_CASES, row_case, check);
     eng.enumerated(PartCfg::new("cell_values", 0, 0).exhaustive(true), CELL_VALUE_CASES, cell_value_case, check);
+    eng.enumerated(PartCfg::new("font_names", 0, 0).exhaustive(true), FONT_NAME_CASES, font_name_case, check);
     eng.enumerated(PartCfg::new("chunk_straddle", 0, 0).exhaustive(true), CHUNK_CASES, chunk_case, check);
     eng.generated(PartCfg::new("documents", 160_000, 2_400_000), documents, check);
     eng.generated(PartCfg::new("boundary", 240, 8_000).shrink_budget(300), boundary, check);
